@@ -51,7 +51,10 @@ impl Ctx {
             json_str(&c.key())
         );
         let _ = std::fs::create_dir_all(&self.replay_dir);
-        let _ = std::fs::write(&file, body);
+        if self.rep.violations.len() < 40 {
+            // replay files only for the witnesses that are reported (the rest are counted)
+            let _ = std::fs::write(&file, body);
+        }
         let detail = format!(
             "\"input\":{},\"fmt\":{},\"observed\":{},\"expected\":{},\"tier\":{},\"tag\":{}",
             json_str(&c.show()),
@@ -85,7 +88,10 @@ impl Ctx {
             json_str(&b.key())
         );
         let _ = std::fs::create_dir_all(&self.replay_dir);
-        let _ = std::fs::write(&file, body);
+        if self.rep.violations.len() < 40 {
+            // replay files only for the witnesses that are reported (the rest are counted)
+            let _ = std::fs::write(&file, body);
+        }
         let detail = format!("\"fmt\":{},\"pair\":{}", json_str(fmt.name), json_str(text));
         self.rep.violation(&sig, what, &file, &detail);
     }
